@@ -272,4 +272,30 @@ def shapeClasses (s : Store) : List (String × Shape × List String) :=
   (dedupKeys (s.hashes.map fun (_, nm, sh) => (nm, sh))).map fun (nm, sh) =>
     (nm, sh, (s.hashes.filter fun (_, n2, s2) => n2 == nm && shapeEq s2 sh).map (·.1))
 
+/-! ### one run of `otel_to_pv` on a persisted store -/
+
+inductive RunStatus where
+  | ok
+  | integrity      -- an IntegrityError aborted the run
+  | valueerror     -- the time buffer is too large for the data (`get_time_window`)
+  deriving DecidableEq, Repr
+
+/-- `otel_to_pv(config, ingest_data, find_unique_graphs)` up to the point where streaming starts, on the
+store another run (another process: fresh holder) left behind. Saving events does not touch the store. -/
+def runOnce (batch : Nat) (buffer : Int) (ing uq : Bool) (input : List Node) (s : Store) : Store × RunStatus :=
+  let (h, o) := if ing then ingest batch (Holder.fresh s) input else (Holder.fresh s, Outcome.ok)
+  match o with
+  | .integrity => (h.store, .integrity)
+  | .ok =>
+    let s1 := removeInconsistent h.store
+    match timeWindow buffer h with
+    | none => (s1, .valueerror)
+    | some w =>
+      let s2 := renameByRoot (removeOutside w s1)
+      if uq then
+        match computeHashes w s2 with
+        | none => (s2, .integrity)
+        | some s3 => (s3, .ok)
+      else (s2, .ok)
+
 end O2P.Store
